@@ -41,8 +41,12 @@ class RunLifecycleLock(ABC):
         ...
 
     @abstractmethod
-    async def complete_release(self, run_id: str) -> None:
-        """releasing -> released."""
+    async def complete_release(self, run_id: str) -> bool | None:
+        """releasing -> released.
+
+        Returns False when the row was no longer 'releasing' (another replica took
+        the run over after the crash timeout), True when the transition happened.
+        """
         ...
 
     @abstractmethod
@@ -96,15 +100,16 @@ class PostgresRunLifecycleLock(RunLifecycleLock):
         )
         return row is not None
 
-    async def complete_release(self, run_id: str) -> None:
-        await self._pool.execute(
+    async def complete_release(self, run_id: str) -> bool | None:
+        row = await self._pool.fetchrow(
             f"UPDATE {self._table_ref} SET state = $1, updated_at = $2 "
-            f"WHERE run_id = $3 AND state = $4",
+            f"WHERE run_id = $3 AND state = $4 RETURNING run_id",
             RunLifecycleState.released.value,
             datetime.now(timezone.utc),
             run_id,
             RunLifecycleState.releasing.value,
         )
+        return row is not None
 
     async def try_begin_resume(
         self, run_id: str, crash_timeout_seconds: float | None = None
@@ -190,10 +195,10 @@ class SqliteRunLifecycleLock(RunLifecycleLock):
                 conn.commit()
                 return cursor.rowcount > 0
 
-    async def complete_release(self, run_id: str) -> None:
+    async def complete_release(self, run_id: str) -> bool | None:
         async with self._lock(run_id):
             with self._connect() as conn:
-                conn.execute(
+                cursor = conn.execute(
                     f"UPDATE {self._table_ref} SET state = ?, updated_at = ? "
                     f"WHERE run_id = ? AND state = ?",
                     (
@@ -204,6 +209,7 @@ class SqliteRunLifecycleLock(RunLifecycleLock):
                     ),
                 )
                 conn.commit()
+                return cursor.rowcount > 0
 
     async def try_begin_resume(
         self, run_id: str, crash_timeout_seconds: float | None = None
